@@ -215,6 +215,9 @@ func zzSnap(p ControlPacket) *zzView {
 	case *Disconnect:
 		v.n("type", 14)
 		v.n("ReasonCode", uint64(p.ReasonCode()))
+		v.n("SessionExpiryInterval", uint64(p.SessionExpiryInterval()))
+		v.s("ServerReference", []byte(p.ServerReference()))
+		v.s("ReasonString", []byte(p.ReasonString()))
 		zzSnapUser(v, "", p.UserProperties)
 	case *Auth:
 		v.n("type", 15)
@@ -369,6 +372,9 @@ func zzExpect(a *zzAbs) *zzView {
 		zzExpUser(v, "", ps)
 	case 14:
 		v.n("ReasonCode", uint64(a.reason))
+		v.n("SessionExpiryInterval", zzPU(ps, 0x11))
+		v.s("ServerReference", zzPS(ps, 0x1c))
+		v.s("ReasonString", zzPS(ps, 0x1f))
 		zzExpUser(v, "", ps)
 	case 15:
 		v.n("ReasonCode", uint64(a.reason))
